@@ -29,7 +29,7 @@
    v0 hook or with ExecuteOnSynchronization = false, [t_exec]) and calls the combiner only behind the
    gate [gate] (run, v1, not an ungrouped kubernetes Synchronization), with stopCombineFn
    [stop_combine].  Spec vocabulary: [not_executed], [stop_rule], [exempt], [synchronization]. *)
-From Verif Require Import Common C07_Model C07_Spec C07_Proofs.
+From Verif Require Import Common C07_Model C07_Spec C07_Proofs C07_PolicyProofs.
 
 (* the whole decidable predicate P of C07_Spec holds of the model on EVERY input
    (P itself restricts to well-formed layouts) *)
@@ -181,11 +181,12 @@ Print Assumptions C07_op_session_holds.
 
 (* the run of a task whose name no queue has: exactly one execution, with exactly the task's
    own contexts (none if the task is not to be executed), and the queue set afterwards IS the queue
-   set before *)
+   set before (the status: the exit code, or Success all the same if the task allows failure - the
+   webhook handlers' tasks never do) *)
 Theorem C07_webhook_run_leaves_queues : forall v0s qs t ok,
   ~ In (t_qn t) (map fst qs) ->
   model_step v0s qs (SLoose t ok)
-  = if should_run (mem_N (t_hook t) v0s) t then mkSO [mkRun (t_hook t) (t_ctxs t)] ok qs
+  = if should_run (mem_N (t_hook t) v0s) t then mkSO [mkRun (t_hook t) (t_ctxs t)] (forgiven ok t) qs
     else mkSO [] true qs.
 Proof. exact loose_run_leaves_queues. Qed.
 Print Assumptions C07_webhook_run_leaves_queues.
@@ -210,8 +211,8 @@ Proof. exact closed_gate_touches_nothing. Qed.
 Print Assumptions C07_closed_gate_touches_nothing.
 
 (* an EXECUTED head of a v1 hook, explicitly: one run with the compacted concatenation of the head's
-   and the block's contexts, the queue afterwards = (the head if the run failed) then everything
-   behind the block; the block ends where the stop rule says - in particular an executed
+   and the block's contexts, the queue afterwards = (the head if the handler says Fail: the run failed and
+   the merged task does not allow failure) then everything behind the block; the block ends where the stop rule says - in particular an executed
    Synchronization head never takes in a Synchronization that is itself not to be executed *)
 Theorem C07_executed_head_block : forall v0s qs t rest ok,
   wf_state qs = true -> get_by_name (t_qn t) qs = Some (t :: rest) -> t_ty t = 0%N ->
@@ -220,7 +221,7 @@ Theorem C07_executed_head_block : forall v0s qs t rest ok,
   let b := block (stop_rule t) t rest in
   st_runs o = [mkRun (t_hook t) (if is_nil b then t_ctxs t else spec_compact (t_ctxs t ++ flat_map t_ctxs b))]
   /\ map t_id (match get_by_name (t_qn t) (st_state o) with Some q => q | None => [] end)
-     = (if ok then [] else [t_id t]) ++ map t_id (after_block (stop_rule t) t rest)
+     = (if st_success o then [] else [t_id t]) ++ map t_id (after_block (stop_rule t) t rest)
   /\ Forall (fun x => exempt x = false \/ synchronization t = false) b.
 Proof. exact executed_head_block. Qed.
 Print Assumptions C07_executed_head_block.
@@ -259,23 +260,23 @@ Qed.
    of C07_executed_head_block met) and takes in the schedule task 13, not 14 (hook 2); 14 runs alone
    (v0), 15 is skipped, 16 (hook 1, ungrouped Synchronization) runs alone although 17 follows it. *)
 Definition ex_sync_qs : qset :=
-  [ (1, [ mkTaskK 11 1 0 true [mkCtxK 1 1 true] [101] 1 true 1 false;
-          mkTaskK 12 1 0 true [mkCtxK 2 1 true] [102] 1 true 1 true;
+  [ (1, [ mkTaskK 11 1 0 true [mkCtxK 1 1 true] [101] 1 true 1 false false;
+          mkTaskK 12 1 0 true [mkCtxK 2 1 true] [102] 1 true 1 true false;
           mkTask 13 1 0 true [mkCtx 3 0] [] 1;
-          mkTaskK 14 2 0 true [mkCtxK 4 0 false] [] 1 true 0 false;
-          mkTaskK 15 2 0 true [mkCtxK 5 0 true] [201] 1 true 0 false;
-          mkTaskK 16 1 0 true [mkCtxK 6 0 true] [103] 1 true 0 true;
+          mkTaskK 14 2 0 true [mkCtxK 4 0 false] [] 1 true 0 false false;
+          mkTaskK 15 2 0 true [mkCtxK 5 0 true] [201] 1 true 0 false false;
+          mkTaskK 16 1 0 true [mkCtxK 6 0 true] [103] 1 true 0 true false;
           mkTask 17 1 0 true [mkCtx 7 0] [] 1 ]) ]%N.
 
 Example C07_skip_hyp_met :
   wf_state ex_sync_qs = true
   /\ (exists rest, get_by_name 1 ex_sync_qs
-                   = Some ((mkTaskK 11 1 0 true [mkCtxK 1 1 true] [101] 1 true 1 false)%N :: rest))
+                   = Some ((mkTaskK 11 1 0 true [mkCtxK 1 1 true] [101] 1 true 1 false false)%N :: rest))
   /\ mem_N 1 [2]%N = false
-  /\ (let t16 := (mkTaskK 16 1 0 true [mkCtxK 6 0 true] [103] 1 true 0 true)%N in
+  /\ (let t16 := (mkTaskK 16 1 0 true [mkCtxK 6 0 true] [103] 1 true 0 true false)%N in
       t_kube t16 = true /\ is_sync t16 = true /\ t_group t16 = 0%N)
-  /\ should_run (mem_N 1 [2])%N (mkTaskK 11 1 0 true [mkCtxK 1 1 true] [101] 1 true 1 false)%N = false
-  /\ should_run false (mkTaskK 12 1 0 true [mkCtxK 2 1 true] [102] 1 true 1 true)%N = true
+  /\ should_run (mem_N 1 [2])%N (mkTaskK 11 1 0 true [mkCtxK 1 1 true] [101] 1 true 1 false false)%N = false
+  /\ should_run false (mkTaskK 12 1 0 true [mkCtxK 2 1 true] [102] 1 true 1 true false)%N = true
   /\ map (fun o => (st_runs o, st_success o, map (fun p => (fst p, map t_id (snd p))) (st_state o)))
          (run_session [2] ex_sync_qs [SHead 1 true; SHead 1 false; SHead 1 true; SHead 1 true; SHead 1 true; SHead 1 true])%N
      = [ ([], true, [(1, [12; 13; 14; 15; 16; 17])]);
@@ -287,4 +288,83 @@ Example C07_skip_hyp_met :
 Proof.
   split; [vm_compute; reflexivity|]. split; [eexists; vm_compute; reflexivity|].
   repeat split; vm_compute; reflexivity.
+Qed.
+
+(* ---------------------------------------------------------------- the failure policy (seeded change C07-7) *)
+
+(* "The tasks immediately following it for the same hook are merged into it" - whatever the
+   `allowFailure` of their bindings.  [repolicy f] gives every task of a layout another failure policy
+   ([f] arbitrary); two layouts that differ in the policies only are re-policied copies of each other. *)
+
+(* the combiner (any stop function that does not look at the policy: nil, by id, the handler's): the
+   result - contexts and monitor ids - is identical and the queue afterwards holds the same tasks *)
+Theorem C07_policy_takes_no_part_in_combine : forall f stopfn t qi qf,
+  policy_blind stopfn ->
+  combine_at stopfn (repolicy f t) (map (repolicy f) qi) (map (repolicy f) qf)
+  = (fst (combine_at stopfn t qi qf), map (repolicy f) (snd (combine_at stopfn t qi qf))).
+Proof. exact combine_at_rp. Qed.
+Print Assumptions C07_policy_takes_no_part_in_combine.
+
+(* one observed call (result, ids left in the queue, tasks appended meanwhile): THE SAME observation *)
+Theorem C07_policy_same_observation : forall f i,
+  run_model (mkIn (repolicy f (i_t i)) (i_stop i) (map (repolicy f) (i_q i)) (map (repolicy f) (i_app i)))
+  = run_model i.
+Proof. exact run_model_rp. Qed.
+Print Assumptions C07_policy_same_observation.
+
+(* the task handler, from every state of the queue set, for every executed task (schedule, kubernetes
+   Event, Synchronization; v0 or v1 hook; in a queue or not): the same executions with the same
+   contexts, the same tasks left in every queue, the same contexts and monitor ids stored in the task *)
+Theorem C07_policy_takes_no_part_in_handler : forall f v0 t qs,
+  let h := handle_hook_run v0 t qs in
+  let h' := handle_hook_run v0 (repolicy f t) (repolicy_qs f qs) in
+  fst (fst h') = fst (fst h)
+  /\ snd h' = repolicy_qs f (snd h)
+  /\ with_af false (snd (fst h')) = with_af false (snd (fst h)).
+Proof. exact handle_hook_run_rp. Qed.
+Print Assumptions C07_policy_takes_no_part_in_handler.
+
+(* the specification's block does not see the policy either, and the rules that delimit it are blind *)
+Theorem C07_policy_block_blind : forall f sp t rest,
+  policy_blind sp ->
+  block sp (repolicy f t) (map (repolicy f) rest) = map (repolicy f) (block sp t rest)
+  /\ after_block sp (repolicy f t) (map (repolicy f) rest) = map (repolicy f) (after_block sp t rest).
+Proof. exact block_rp. Qed.
+Print Assumptions C07_policy_block_blind.
+
+Theorem C07_stop_rules_policy_blind : forall t ids,
+  policy_blind (stop_rule t) /\ policy_blind (stop_combine t) /\ policy_blind (stop_of ids)
+  /\ forall f, stop_rule (repolicy f t) = stop_rule t.
+Proof.
+  intros t ids. split; [exact (stop_rule_blind t)|]. split; [exact (stop_combine_blind t)|].
+  split; [exact (stop_of_blind ids) | intros f; reflexivity].
+Qed.
+Print Assumptions C07_stop_rules_policy_blind.
+
+(* non-vacuity: hook 1 has a strict and a lenient schedule binding; three ticks strict, lenient, strict
+   pile up in main (the demonstration of the seeded change), a task of hook 2 behind them.  The head is
+   executed ONCE with the three contexts, whether the policies are as declared, all strict, all lenient
+   or the other way round; as declared the failed run is a Fail (one merged task is strict) and the head
+   stays with the three contexts and the policy "strict"; all lenient, the failed run is forgiven. *)
+Definition ex_mixed (a b c : bool) : qset :=
+  [ (1, [ with_af a (mkTask 1 1 0 true [mkCtx 10 0] [] 1); with_af b (mkTask 2 1 0 true [mkCtx 20 0] [] 1);
+          with_af c (mkTask 3 1 0 true [mkCtx 30 0] [] 1); mkTask 4 2 0 true [mkCtx 40 0] [] 1 ]) ]%N.
+
+Example C07_policy_hyp_met :
+  policy_blind (stop_of [3]%N)
+  /\ repolicy_qs (fun x => N.eqb (t_id x) 2) (ex_mixed true false true) = ex_mixed false true false
+  /\ (forall a b c,
+        let o := model_step [] (ex_mixed a b c) (SHead 1 false) in
+        st_runs o = [mkRun 1 [mkCtx 10 0; mkCtx 20 0; mkCtx 30 0]]%N
+        /\ st_success o = (a && b && c)
+        /\ map (fun p => (fst p, map t_id (snd p))) (st_state o)
+           = [(1, if a && b && c then [4] else [1; 4])]%N)
+  /\ st_state (model_step [] (ex_mixed false true false) (SHead 1 false))
+     = [(1, [ mkTask 1 1 0 true [mkCtx 10 0; mkCtx 20 0; mkCtx 30 0] [] 1; mkTask 4 2 0 true [mkCtx 40 0] [] 1 ])]%N
+  /\ P_step [] (ex_mixed false true false) (SHead 1 false)
+            (mkSO [mkRun 1 [mkCtx 10 0]] false (ex_mixed false true false)) = false.
+Proof.
+  split; [exact (stop_of_blind _)|]. split; [vm_compute; reflexivity|].
+  split; [intros [] [] []; vm_compute; repeat split; reflexivity|].
+  split; vm_compute; reflexivity.
 Qed.
